@@ -179,6 +179,7 @@ func consumeUnsignedInteger(sr *utils.StringReader, buf *bytes.Buffer) {
 		case utf8.RuneError:
 			panic(errors.New("unicode error"))
 		case 0:
+			return
 		case '.':
 			panic(badToken(r))
 		default:
